@@ -377,16 +377,19 @@ class Result:
 def run_cases(res, cases, known, max_samples=4):
     """execute cases: real code, model (one driver call), compare, oracles."""
     impl_out = []
-    for c in cases:
+    exc_txt = {}
+    for ci, c in enumerate(cases):
         try:
             impl_out.append(c.impl())
         except Exception as e:  # the real code raised
             impl_out.append(out_err(e))
+            tb = traceback.extract_tb(e.__traceback__)
+            exc_txt[ci] = "%s: %s @ %s" % (type(e).__name__, str(e)[:300], " <- ".join("%s:%d" % (os.path.basename(f.filename), f.lineno) for f in tb[-3:]))
     lines = [c.line for c in cases if c.line is not None]
     model_out = run_driver(lines) if lines else []
     mi = 0
     known_sigs = {k["signature"] for k in known if k.get("property") == res.prop and k.get("kind") == "finding"}
-    for c, io in zip(cases, impl_out):
+    for ci, (c, io) in enumerate(zip(cases, impl_out)):
         res.evaluations += 1
         res.classes[c.cls] = res.classes.get(c.cls, 0) + 1
         if c.nontrivial:
@@ -425,7 +428,7 @@ def run_cases(res, cases, known, max_samples=4):
             else:
                 res.violation({"property": res.prop, "kind": "oracle-failure", "class": c.cls,
                                "case": c.line or c.desc, "impl_outcome": io, "model_outcome": mo,
-                               "oracle": ofail, "seed": res.seed})
+                               "oracle": ofail, "seed": res.seed, "exception": exc_txt.get(ci)})
         elif corr_broken:
             if c.finding and c.finding in known_sigs:
                 # inside a listed defect region the model mirrors the defective code; a difference here
